@@ -389,7 +389,102 @@ def cases(quick):
     return out
 
 
+# ---------------------------------------------------------------- an accepted upgrade, pipelined
+def upgrade_behind_slow(part, split, frame_with_body, release, reads_body, framing):
+    """GET /slow (its handler waits), then an upgrade request *with a body* whose bytes arrive in two reads, the
+    WebSocket frame right behind the body; /slow is released before or after the second read.  The upgrade handler
+    accepts: every byte behind the declared body is the WebSocket's, and the one text message must reach it."""
+    from mc.vloop import VLoop
+
+    case = {"kind": "upgrade-behind-slow", "args": [split, frame_with_body, release, reads_body, framing]}
+    tag = f"body split at {split}, frame {'with' if frame_with_body else 'after'} the rest of the body, /slow released {release} it, handler {'reads' if reads_body else 'ignores'} the {framing} body"
+    loop = VLoop().hold()
+    seen = {}
+    try:
+        gate = loop.create_future()
+
+        async def slow(request):
+            await gate
+            return web.Response(text="slow done")
+
+        async def wsh(request):
+            if reads_body:
+                seen["body"] = await request.read()
+            ws = web.WebSocketResponse(timeout=1.0)
+            await ws.prepare(request)
+            msg = await ws.receive(timeout=5.0)
+            seen["ws"] = (msg.type.name, msg.data)
+            await ws.close()
+            return ws
+
+        app = web.Application()
+        app.router.add_get("/slow", slow)
+        app.router.add_route("*", "/ws", wsh)
+        conn = AppConn(loop, app)
+        body = b"abcde"
+        if framing == "length":
+            wire_body = body
+            fr = b"Content-Length: 5\r\n"
+        else:
+            wire_body = b"2\r\nab\r\n3\r\ncde\r\n0\r\n\r\n"
+            fr = b"Transfer-Encoding: chunked\r\n"
+        head = (b"POST /ws HTTP/1.1\r\nHost: x\r\nConnection: Upgrade\r\nUpgrade: websocket\r\n"
+                b"Sec-WebSocket-Key: dGhlIHNhbXBsZSBub25jZQ==\r\nSec-WebSocket-Version: 13\r\n" + fr + b"\r\n")
+        frame = b"\x81\x82\x00\x00\x00\x00hi"
+        k = min(split, len(wire_body))
+
+        def feed(data):
+            conn.send(data)
+            conn.deliver_to_server()
+            conn.settle()
+
+        feed(b"GET /slow HTTP/1.1\r\nHost: x\r\n\r\n")
+        feed(head + wire_body[:k])
+        if release == "before":
+            gate.set_result(None)
+            conn.settle()
+        feed(wire_body[k:] + (frame if frame_with_body else b""))
+        if release == "after":
+            gate.set_result(None)
+            conn.settle()
+        if not frame_with_body:
+            feed(frame)
+        conn.settle(8.0)
+        part.count("executions")
+        part.count("transitions", 5)
+        part.outcome(("upgrade-behind-slow", seen.get("ws"), seen.get("body")))
+        if conn.escaped:
+            part.violation("C05:upgrade-behind-slow:exception-escapes", f"{tag}: {conn.escaped[:1]!r}", case)
+        if b"slow done" not in bytes(conn.client.received):
+            part.violation("C05:upgrade-behind-slow:first-response-missing", f"{tag}: /slow was not answered", case)
+        if reads_body and seen.get("body") != body:
+            part.violation("C05:upgrade-behind-slow:body-differs", f"{tag}: the handler read {seen.get('body')!r}", case)
+        if seen.get("ws") != ("TEXT", "hi"):
+            part.violation("C05:upgrade-behind-slow:frame-not-delivered",
+                           f"{tag}: the WebSocket message behind the body was not delivered to the accepted upgrade (got {seen.get('ws')!r}; "
+                           f"server wrote {bytes(conn.client.received)[-80:]!r})", case)
+        for e in loop.collect_exceptions():
+            part.violation("C05:upgrade-behind-slow:loop-exception", f"{tag}: {e.get('message')} {e.get('exception')!r}", case)
+    finally:
+        loop.finish()
+
+
+def _job_upgrade(_job):
+    part = Part()
+    for framing in ("length", "chunked"):
+        n = 5 if framing == "length" else 20
+        for split in range(0, n + 1):
+            for fwb in (True, False):
+                for release in ("before", "after"):
+                    for reads in (True, False):
+                        upgrade_behind_slow(part, split, fwb, release, reads, framing)
+    part.state(("upgrade-behind-slow",))
+    return part
+
+
 def _job(job):
+    if job[0] == "upgrade-behind-slow":
+        return _job_upgrade(job)
     case, bound, max_execs = job
     part = Part()
     name = case["name"]
@@ -428,6 +523,7 @@ def run(ctx):
     bound = 2 if ctx.quick else 3
     cs = cases(ctx.quick)
     jobs = [(c, min(bound, c.get("bound", bound)) if ctx.quick else c.get("bound", 1) + 1 if "bound" in c else bound, 60000) for c in cs]
+    jobs.append(("upgrade-behind-slow",))
     for part in ctx.pmap(_job, jobs):
         ctx.merge(part)
     ctx.notes["deviation_bound"] = bound
@@ -435,6 +531,10 @@ def run(ctx):
 
 
 def replay(case):
+    if case.get("kind") == "upgrade-behind-slow":
+        part = Part()
+        upgrade_behind_slow(part, *case["args"])
+        return part.violations
     c = case["case"]
     prefix = [(tuple(l), ch) for l, ch in case["prefix"]]
     ex = explorer.run_one(factory, c, prefix, max_passes=3000)
